@@ -367,6 +367,11 @@ def _s_cmp_mean():
     if U(the_assign(fn2, 'sum_over_bands', 1)).replace(' ', '') != '{k:sum_over_bands.get(k,0)+vfork,vinband_stats.items()}':
         raise TranslationError('_get_image_stats: accumulation over bands')
     out.append(('cmp_meanRow', '(total nbands : Rat)', 'Rat', '(total / nbands)', '_get_image_stats: v / len(image_sums)'))
+    # float `+`: a nan term makes the sum nan (the model's addO: undefined absorbs); the dictionary starts empty, `.get(k, 0)` = 0
+    out.append(('cmp_meanAcc', '(acc v : Option Rat)', 'Option Rat', '(addO acc v)', '_get_image_stats: sum_over_bands.get(k, 0) + v (float addition: nan absorbs)'))
+    if U(the_assign(fn2, 'sum_over_bands', 0)) != '{}':
+        raise TranslationError('_get_image_stats: sum_over_bands does not start empty')
+    out.append(('cmp_meanStart', '', 'Option Rat', '(some 0)', '_get_image_stats: sum_over_bands.get(k, 0) of an empty dictionary'))
     return out
 
 
@@ -1576,6 +1581,47 @@ def _k_shared_state():
              'stores into the shared model object (or its class, a global, a non-local) by methods other than __init__')]
 
 
+def _hbody(stmts):
+    """an exception handler's statements as the model's HBody tree"""
+    if not stmts:
+        return '.fallthrough'
+    st, rest = stmts[0], list(stmts[1:])
+    if isinstance(st, ast.Raise):
+        if st.exc is not None and U(st.exc) == 'click.Abort()':
+            return '.abort'
+        raise TranslationError(f'handler raises `{U(st)}`')
+    if isinstance(st, ast.Expr) and isinstance(st.value, ast.Call) and U(st.value.func).startswith('logger.'):
+        return f'(.log {_hbody(rest)})'
+    if isinstance(st, ast.If):
+        cond = U(st.test).replace('"', "'")
+        return f'(.ite "{cond}" {_hbody(list(st.body) + rest)} {_hbody(list(st.orelse) + rest)})'
+    raise TranslationError(f'handler statement `{U(st)[:80]}`')
+
+
+def _c_handlers():
+    """cli.py fuse / compare / stats: all processing of a command sits in one `try` - the last statement of the command - with a
+    single handler, `except Exception`, and no handler inside it; the handler's body as a tree of log / if / abort"""
+    from homonim import cli
+    out = []
+    for nm in ('fuse', 'compare', 'stats'):
+        fn = fn_body(src_of(getattr(cli, nm).callback), nm)
+        body = _stmts(fn)
+        if not body or not isinstance(body[-1], ast.Try):
+            raise TranslationError(f'cli.{nm}: the command does not end with its try statement')
+        t = body[-1]
+        if len(t.handlers) != 1 or t.handlers[0].type is None or U(t.handlers[0].type) != 'Exception' or t.orelse or t.finalbody:
+            raise TranslationError(f'cli.{nm}: handlers {[U(h.type) if h.type else None for h in t.handlers]}, else / finally')
+        inner = [n for st in t.body for n in ast.walk(st) if isinstance(n, ast.Try)]
+        if inner:
+            raise TranslationError(f'cli.{nm}: a handler inside the command\'s try (line {inner[0].lineno})')
+        early = [st for st in body[:-1] if any(isinstance(n, (ast.Try, ast.For, ast.While, ast.With)) for n in ast.walk(st))]
+        if early:
+            raise TranslationError(f'cli.{nm}: processing outside the try: `{U(early[0])[:80]}`')
+        out.append(f'("{nm}", {_hbody(list(t.handlers[0].body))})')
+    return [('cli_handlers', '', 'List (String × HBody)', '[' + ', '.join(out) + ']',
+             'cli.fuse / cli.compare / cli.stats: the single `except Exception` handler around all processing')]
+
+
 def _f_tags():
     """fuse.py / stats.py: which FUSE_* tags process() writes into both outputs (the three fixed ones of _set_metadata plus one per
     configuration key handed to _out_files), which of them ParamStats reads, and that the threshold read back is made a number"""
@@ -1643,7 +1689,7 @@ def _f_tags():
 SECTIONS = [_k_fit_gain, _k_fit_gain_offset, _k_r2, _k_blk, _s_cmp, _s_cmp_mean, _s_stats, _g_blocks, _g_resolve, _g_auto,
             _g_overlap, _g_expand, _g_round, _g_covers, _g_pindex, _s_cmp_block, _m_cover, _a_bounded, _p_r2band, _f_prog, _f_outfiles, _c_invoke, _f_process, _k_resampling, _a_convert, _a_write, _a_read,
             _g_orient, _m_naneq, _f_accumulate, _c_loops, _f_profiles, _c_nodata, _b_match, _f_locks,
-            _u_kernel, _u_threads, _u_param_image, _u_names, _u_nonalpha, _b_info, _c_defaults, _f_tags, _s_window, _k_init, _k_shared_state]
+            _u_kernel, _u_threads, _u_param_image, _u_names, _u_nonalpha, _b_info, _c_defaults, _f_tags, _s_window, _k_init, _k_shared_state, _c_handlers]
 # definition-name prefixes each extractor is responsible for (used to attribute a failed extraction to properties)
 PROVIDES = {'_k_fit_gain': ('fitGain_',), '_k_fit_gain_offset': ('fitGainOffset_',), '_k_r2': ('r2_',),
             '_k_blk': ('blk_', 'blockNorm_', 'applyParams'), '_s_cmp': ('cmp_',), '_s_cmp_mean': ('cmp_meanRow',),
@@ -1654,14 +1700,14 @@ PROVIDES = {'_k_fit_gain': ('fitGain_',), '_k_fit_gain_offset': ('fitGainOffset_
             '_a_read': ('read_',), '_g_orient': ('orient_',), '_m_naneq': ('mask_',), '_f_accumulate': ('accumulate_',),
             '_c_loops': ('cli_fuseLoop', 'cli_compareLoop'), '_f_profiles': ('profile_',), '_c_nodata': ('cli_nodata',), '_b_match': ('match_',), '_f_locks': ('locks_',),
             '_u_kernel': ('kernel_',), '_u_threads': ('threads_',), '_u_param_image': ('paramImage_',), '_u_names': ('names_',),
-            '_u_nonalpha': ('bands_',), '_b_info': ('bandInfo_',), '_c_defaults': ('cli_defaults', 'cli_flagDefaults'), '_f_tags': ('tags_',), '_s_window': ('statsWindow_',), '_k_init': ('kmodel_',), '_k_shared_state': ('modelState_',)}
+            '_u_nonalpha': ('bands_',), '_b_info': ('bandInfo_',), '_c_defaults': ('cli_defaults', 'cli_flagDefaults'), '_f_tags': ('tags_',), '_s_window': ('statsWindow_',), '_k_init': ('kmodel_',), '_k_shared_state': ('modelState_',), '_c_handlers': ('cli_handlers',)}
 # which generated definitions (by name prefix) bear on which property's check
 SERVES = {
     'C01': ('fitGain', 'r2_', 'blk_', 'blockNorm_', 'kernel_'), 'C02': ('fitGain', 'r2_', 'blk_', 'blockNorm_', 'applyParams', 'resamplingIsDown', 'kmodel_'),
     'C07': ('fitGain', 'r2_', 'blk_', 'blockNorm_', 'applyParams', 'mask_'), 'C14': ('applyParams', 'paramIndex', 'fitGain', 'r2_', 'profile_metaTags', 'paramImage_', 'tags_'),
-    'C04': ('prog', 'fanOut', 'accumulate_', 'locks_', 'threads_', 'modelState_'), 'C09': ('prog', 'outFilesEvents', 'fanOut', 'statsWindow_'), 'C10': ('outFilesEvents', 'profile_', 'cli_fuseLoop', 'names_'), 'C11': ('cmp_', 'cmpPx_', 'resamplingIsDown', 'accumulate_compare', 'mask_'), 'C12': ('stats_', 'accumulate_stats', 'paramImage_', 'tags_', 'statsWindow_'), 'C17': ('cover_',), 'C20': ('bounded_', 'writeSteps', 'read_', 'convert_', 'mask_'), 'C13': ('convert_', 'writeSteps', 'profile_'), 'C08': ('read_', 'mask_', 'bands_'),
+    'C04': ('prog', 'fanOut', 'accumulate_', 'locks_', 'threads_', 'modelState_'), 'C09': ('prog', 'outFilesEvents', 'fanOut', 'statsWindow_', 'cli_handlers'), 'C10': ('outFilesEvents', 'profile_', 'cli_fuseLoop', 'names_'), 'C11': ('cmp_', 'cmpPx_', 'resamplingIsDown', 'accumulate_compare', 'mask_'), 'C12': ('stats_', 'accumulate_stats', 'paramImage_', 'tags_', 'statsWindow_'), 'C17': ('cover_',), 'C20': ('bounded_', 'writeSteps', 'read_', 'convert_', 'mask_'), 'C13': ('convert_', 'writeSteps', 'profile_'), 'C08': ('read_', 'mask_', 'bands_'),
     'C03': ('writeSteps', 'expandWindow_', 'kmodel_'), 'C05': ('overlapForKernel', 'blocks_', 'resamplingIsDown', 'fitGain', 'r2_', 'kernel_'),
-    'C06': ('blocks_', 'expandWindow_', 'roundBounds_', 'autoBlock_', 'orient_'), 'C16': ('covers_axis', 'orient_'), 'C18': ('resolveAutoIsRef', 'orient_', 'cli_fuseLoop', 'tags_'), 'C19': ('cli_', 'names_', 'threads_', 'kernel_', 'kmodel_'), 'C15': ('match_', 'bands_', 'bandInfo_'),
+    'C06': ('blocks_', 'expandWindow_', 'roundBounds_', 'autoBlock_', 'orient_'), 'C16': ('covers_axis', 'orient_'), 'C18': ('resolveAutoIsRef', 'orient_', 'cli_fuseLoop', 'tags_', 'profile_'), 'C19': ('cli_', 'names_', 'threads_', 'kernel_', 'kmodel_'), 'C15': ('match_', 'bands_', 'bandInfo_'),
 }
 # theorems outside Props/Cxx.lean audited with a property's proof leg: (module, theorem name prefix) - the source-text tie
 # theorems and the end-to-end theorems about the whole-image model (Props/E2E.lean)
@@ -1681,11 +1727,11 @@ TIE = {
             ('E2ESrc', 'block_transparent_src_grid'), ('E2ESrc', 'partitions_agree_src_grid'), ('E2ESrc', 'correctedSrcGrid_eq_on'),
             ('E2EWide', 'block_transparent_wide'), ('E2EWide', 'block_mask_eq_whole_wide'), ('E2EParam', 'param_image_')],
     'C06': [('SrcTieGeom', 'src_C06_'), ('SrcTieGeom', 'src_C16_north_up'), ('SrcTieGeom', 'src_C16_same_orientation')], 'C16': [('SrcTieGeom', 'src_C16_')],
-    'C18': [('SrcTieCli', 'src_C12_tags'), ('SrcTieGeom', 'src_C18_'), ('SrcTieGeom', 'src_C16_same_orientation'), ('SrcTieSched', 'src_C19_loops')],
+    'C18': [('SrcTieCli', 'src_C12_tags'), ('SrcTieSched', 'src_C13_profiles'), ('SrcTieGeom', 'src_C18_'), ('SrcTieGeom', 'src_C16_same_orientation'), ('SrcTieSched', 'src_C19_loops')],
     'C13': [('SrcTieGeom', 'src_C13_'), ('SrcTieSched', 'src_C13_')], 'C08': [('SrcTieCli', 'src_C15_non_alpha'), ('SrcTieGeom', 'src_C08_')],
     'C17': [('SrcTieGeom', 'src_C17_'), ('E2EPartial', 'partial_mask_'), ('E2EPartialDef', 'partial_valid_'),
             ('E2EPartialSrc', 'partial')], 'C20': [('SrcTieGeom', 'src_C20_'), ('SrcTieGeom', 'src_C08_nan_equals'), ('SrcTieGeom', 'src_C08_mask_')],
-    'C04': [('SrcTieCli', 'src_C19_threads'), ('SrcTieSched', 'src_C04_')], 'C09': [('SrcTieSched', 'src_C04_'), ('SrcTieCli', 'src_C12_window_steps')], 'C10': [('SrcTieCli', 'src_C19_names'), ('SrcTieSched', 'src_C10_'), ('SrcTieSched', 'src_C13_profiles'), ('SrcTieSched', 'src_C19_loops')], 'C19': [('SrcTieCli', 'src_C19_model_config'), ('SrcTieCli', 'src_C19_threads'), ('SrcTieCli', 'src_C19_names'), ('SrcTieCli', 'src_C19_defaults'), ('SrcTieCli', 'src_C01_kernel'), ('SrcTieSched', 'src_C19_')],
+    'C04': [('SrcTieCli', 'src_C19_threads'), ('SrcTieSched', 'src_C04_')], 'C09': [('SrcTieSched', 'src_C04_'), ('SrcTieCli', 'src_C12_window_steps'), ('SrcTieCli', 'src_C09_')], 'C10': [('SrcTieCli', 'src_C19_names'), ('SrcTieSched', 'src_C10_'), ('SrcTieSched', 'src_C13_profiles'), ('SrcTieSched', 'src_C19_loops')], 'C19': [('SrcTieCli', 'src_C19_model_config'), ('SrcTieCli', 'src_C19_threads'), ('SrcTieCli', 'src_C19_names'), ('SrcTieCli', 'src_C19_defaults'), ('SrcTieCli', 'src_C01_kernel'), ('SrcTieSched', 'src_C19_')],
 }
 
 
@@ -1694,7 +1740,7 @@ def generate():
     lines = ['/-', '  GENERATED by harness/py2lean.py from the source text of the homonim package - do not edit.',
              '  Each definition is the closed form of what the named statement of the code evaluates (see py2lean.py).', '-/',
              'import Homonim.Model.Sched', 'import Homonim.Model.FS', 'import Homonim.Model.WindowIO', 'import Homonim.Model.Cli',
-             'import Homonim.Model.Bands', 'import Homonim.Model.StatsWindow', 'namespace Homonim.Src', 'open Homonim', '']
+             'import Homonim.Model.Bands', 'import Homonim.Model.StatsWindow', 'import Homonim.Model.Stats', 'namespace Homonim.Src', 'open Homonim', '']
     errors = {}
     for fn in SECTIONS:
         try:
